@@ -43,30 +43,50 @@ void *__tsan_create_fiber(unsigned flags);
 void __tsan_destroy_fiber(void *fiber);
 void __tsan_switch_to_fiber(void *fiber, unsigned flags);
 
-/* Creating a TSan fiber is expensive, so released ones are cached. */
+/* Creating a TSan fiber is expensive, so released ones are cached.  A ULT
+ * ends with a jump, so a few frames stay on the fiber's shadow call stack at
+ * every reuse; a fiber is therefore destroyed after a bounded number of uses.
+ */
 #define ABTD_VERIF_FIBER_CACHE_SIZE 4096
-extern void *ABTD_verif_fiber_cache[ABTD_VERIF_FIBER_CACHE_SIZE];
+#define ABTD_VERIF_FIBER_MAX_USES 1024
+typedef struct {
+    void *fiber;
+    int uses;
+} ABTD_verif_fiber_entry;
+extern ABTD_verif_fiber_entry
+    ABTD_verif_fiber_cache[ABTD_VERIF_FIBER_CACHE_SIZE];
 extern int ABTD_verif_fiber_cache_n;
 extern pthread_mutex_t ABTD_verif_fiber_cache_lock;
 
-static inline void *ABTD_verif_fiber_get(void)
+static inline void *ABTD_verif_fiber_get(int *p_uses)
 {
     void *fiber = NULL;
     pthread_mutex_lock(&ABTD_verif_fiber_cache_lock);
-    if (ABTD_verif_fiber_cache_n > 0)
-        fiber = ABTD_verif_fiber_cache[--ABTD_verif_fiber_cache_n];
-    pthread_mutex_unlock(&ABTD_verif_fiber_cache_lock);
-    return fiber ? fiber : __tsan_create_fiber(0);
-}
-
-static inline void ABTD_verif_fiber_put(void *fiber)
-{
-    pthread_mutex_lock(&ABTD_verif_fiber_cache_lock);
-    if (ABTD_verif_fiber_cache_n < ABTD_VERIF_FIBER_CACHE_SIZE) {
-        ABTD_verif_fiber_cache[ABTD_verif_fiber_cache_n++] = fiber;
-        fiber = NULL;
+    if (ABTD_verif_fiber_cache_n > 0) {
+        ABTD_verif_fiber_cache_n--;
+        fiber = ABTD_verif_fiber_cache[ABTD_verif_fiber_cache_n].fiber;
+        *p_uses = ABTD_verif_fiber_cache[ABTD_verif_fiber_cache_n].uses + 1;
     }
     pthread_mutex_unlock(&ABTD_verif_fiber_cache_lock);
+    if (!fiber) {
+        fiber = __tsan_create_fiber(0);
+        *p_uses = 1;
+    }
+    return fiber;
+}
+
+static inline void ABTD_verif_fiber_put(void *fiber, int uses)
+{
+    if (uses < ABTD_VERIF_FIBER_MAX_USES) {
+        pthread_mutex_lock(&ABTD_verif_fiber_cache_lock);
+        if (ABTD_verif_fiber_cache_n < ABTD_VERIF_FIBER_CACHE_SIZE) {
+            ABTD_verif_fiber_cache[ABTD_verif_fiber_cache_n].fiber = fiber;
+            ABTD_verif_fiber_cache[ABTD_verif_fiber_cache_n].uses = uses;
+            ABTD_verif_fiber_cache_n++;
+            fiber = NULL;
+        }
+        pthread_mutex_unlock(&ABTD_verif_fiber_cache_lock);
+    }
     if (fiber)
         __tsan_destroy_fiber(fiber);
 }
@@ -83,7 +103,7 @@ static inline void ABTD_verif_ctx_fini(ABTD_ythread_context *p_ctx)
 {
 #ifdef ABTD_VERIF_TSAN
     if (p_ctx->verif_tsan_owned && p_ctx->verif_tsan_fiber)
-        ABTD_verif_fiber_put(p_ctx->verif_tsan_fiber);
+        ABTD_verif_fiber_put(p_ctx->verif_tsan_fiber, p_ctx->verif_tsan_owned);
     p_ctx->verif_tsan_fiber = NULL;
     p_ctx->verif_tsan_owned = 0;
 #else
@@ -114,7 +134,11 @@ static inline void ABTD_verif_stack_bounds(ABTD_ythread_context *p_ctx,
 }
 #endif
 
-static inline void ABTD_verif_pre_switch(ABTD_ythread_context *p_old,
+/* The functions below must be inlined: ThreadSanitizer keeps a shadow call
+ * stack per fiber, so a function entered on one fiber must not return on
+ * another one. */
+__attribute__((always_inline)) static inline void
+ABTD_verif_pre_switch(ABTD_ythread_context *p_old,
                                          ABTD_ythread_context *p_new,
                                          int is_jump)
 {
@@ -122,8 +146,8 @@ static inline void ABTD_verif_pre_switch(ABTD_ythread_context *p_old,
     if (p_old && !p_old->verif_tsan_fiber)
         p_old->verif_tsan_fiber = __tsan_get_current_fiber();
     if (!p_new->verif_tsan_fiber) {
-        p_new->verif_tsan_fiber = ABTD_verif_fiber_get();
-        p_new->verif_tsan_owned = 1;
+        /* verif_tsan_owned holds the use count of the fiber (>= 1) */
+        p_new->verif_tsan_fiber = ABTD_verif_fiber_get(&p_new->verif_tsan_owned);
     }
     __tsan_switch_to_fiber(p_new->verif_tsan_fiber, 0);
 #endif
@@ -144,7 +168,8 @@ static inline void ABTD_verif_pre_switch(ABTD_ythread_context *p_old,
     (void)is_jump;
 }
 
-static inline void ABTD_verif_post_switch(ABTD_ythread_context *p_old)
+__attribute__((always_inline)) static inline void
+ABTD_verif_post_switch(ABTD_ythread_context *p_old)
 {
 #ifdef ABTD_VERIF_ASAN
     __sanitizer_finish_switch_fiber(p_old->verif_asan_fake, NULL, NULL);
@@ -152,7 +177,8 @@ static inline void ABTD_verif_post_switch(ABTD_ythread_context *p_old)
     (void)p_old;
 }
 
-static inline void ABTD_verif_enter(ABTD_ythread_context *p_ctx)
+__attribute__((always_inline)) static inline void
+ABTD_verif_enter(ABTD_ythread_context *p_ctx)
 {
 #ifdef ABTD_VERIF_ASAN
     __sanitizer_finish_switch_fiber(NULL, NULL, NULL);
